@@ -236,7 +236,7 @@ class ArffLineReader(Filter[str, Sequence[str]]):
             if quotechar == '"':
                 pass
             elif quotechar is None:
-                self._quotechar = '"'
+                quotechar = self._quotechar = '"'
                 dialect['quotechar'] = '"'
             else:
                 self._set_filter(self._dense_advanced)
